@@ -1624,6 +1624,611 @@ def r12(cx):
                '(anchor moved: review how `sh` is recognised)')
 
 
+# ---------------------------------------------------------------------------------------
+# added after seed wave 4 (C20-s7: typeset's try_parse_short declined `-+x`, which try_parse_long does not claim either)
+# Finite-domain evaluation of the bespoke option parsers that split the work between a short-option and a long-option function
+# (typeset, set, the shell command line): each function is evaluated (path enumeration over its MIR with the interpreter of
+# rules/C02.py, texts and the argument list concrete, everything else unconstrained) on every argument text of length <= 3
+# over the alphabet {-, +, x}.
+from rules.C02 import Sym, SymLimit, mk_enum
+
+
+class _Txt(str):
+    """A concrete text (the value of a &str / String the evaluation knows)."""
+
+
+_ARGLIST = ('c', '<the argument list>')
+_M_ARGS, _M_POS, _M_ARG0 = ('M', 'args'), ('M', 'args.pos'), ('M', 'args[0]')
+SIGN_DOMAIN = [''.join(t) for n in range(0, 4) for t in __import__('itertools').product('-+x', repeat=n)]
+# drivers whose option loop asks a short-option function and then a long-option function about the next argument
+SPLIT_PARSERS = {
+    # driver: (what, the signs that introduce options there, what happens to an unclaimed `<sign><sign>p`)
+    'yash_builtin::typeset::syntax::parse': ('typeset / export / readonly', '-+',
+                                             '`export %sp foo=bar` defines and exports a variable named `%sp` and exits 0'),
+    'yash_builtin::set::syntax::parse': ('set', '-+', '`set %se` makes `%se` the first positional parameter and exits 0'),
+    'yash_cli::startup::args::parse': ('the shell command line', '-+', '`yash %se` takes `%se` for the name of a script to run'),
+    'yash_builtin::common::syntax::parse_arguments': ('the generic built-in parser', '-',
+                                                      '`cd %sP dir` takes `%sP` for the directory operand'),
+}
+# arguments beginning with a sign that are documented not to be options: the lone `-` (an operand, docs/src/builtins/README.md),
+# the lone `+` (likewise an operand for the parsers that know `+`), and the `--` separator (dropped by the driver itself)
+SIGN_NOT_OPTION = {'-', '+', '--'}
+
+
+def _unescape(s):
+    try:
+        return __import__('ast').literal_eval('"%s"' % s.replace('"', '\\"')) if '\\' in s else s
+    except Exception:
+        return None
+
+
+class _ArgSym(Sym):
+    """Sym with concrete texts / characters, call alternatives that can update memory, and a record of the branches taken on
+    the result of a call the evaluation has no model for."""
+
+    def const(self, o):
+        ty, c = o.get('ty', ''), o.get('c')
+        if isinstance(c, str) and 'cdef' not in o and 'fn' not in o:
+            if ty == 'char' and len(c) >= 3 and c[0] == "'" and c[-1] == "'":
+                ch = _unescape(c[1:-1])
+                if ch is not None and len(ch) == 1:
+                    return ('c', ord(ch))
+            if ty == '&str' and len(c) >= 2 and c[0] == '"' and c[-1] == '"':
+                tx = _unescape(c[1:-1])
+                if tx is not None:
+                    return ('c', _Txt(tx))
+        return Sym.const(self, o)
+
+    def _finish_call(self, st, t, args, alt):
+        Sym._finish_call(self, st, t, args, alt)
+        if len(alt) > 3 and alt[3]:
+            alt[3](st)
+
+    def loc(self, st, place):
+        # a `&str` the evaluation knows is carried as the text itself: `&*name` is the same text again
+        proj = place.get('p') or []
+        if proj and proj[0] == '*':
+            v = self.read(st, ('L', place['l']), ())
+            if v[0] == 'c' and isinstance(v[1], _Txt):
+                root = ('M', 'text %r' % str(v[1]))
+                st.mem[root] = v
+                return self._loc_from(st, root, proj[1:])
+        return Sym.loc(self, st, place)
+
+    def _loc_from(self, st, root, proj):
+        path = ()
+        for e in proj:
+            if isinstance(e, dict) and 'f' in e:
+                path = path + (str(e['f']),)
+            elif isinstance(e, dict) and 'v' in e:
+                continue
+            elif e == '*':
+                v = self.read(st, root, path)
+                if v[0] == 'ref':
+                    root, path = v[1], v[2]
+                else:
+                    root, path = ('M', '*?'), ()
+            else:
+                path = path + ('[]',)
+        return root, path
+
+    def switch_alts(self, st, t, v, tmap):
+        alts = Sym.switch_alts(self, st, t, v, tmap)
+        tag = v[1] if v[0] == 'u' else (v[4] if v[0] == 'discr' else None)
+        if isinstance(tag, str) and 'call:' in tag and len(alts) > 1:
+            def wrap(refine):
+                def r(s):
+                    refine(s)
+                    s.events.append(('x-fork', tag))
+                return r
+            alts = [(lab, tgt, wrap(refine)) for lab, tgt, refine in alts]
+        return alts
+
+
+def _subcall(sym, st, cb, vals):
+    """Evaluate a call of a body of the workspace (a closure, a helper of the module) in the caller's memory: locals of the
+    caller that the arguments refer to are copied in and out.  -> ('fork', alternatives) or None (call stays opaque)."""
+    depth = getattr(sym, 'depth', 0)
+    if depth >= 3 or cb.d.get('coroutine') or len(cb.blocks) > 150 or len(vals) != cb.argc:
+        return None
+    init, back = {}, {}
+
+    def marshal(v, d=0):
+        if v is None or d > 5:
+            return v
+        if v[0] == 'ref' and v[1][0] == 'L':
+            m = ('M', 'frame%d.%s' % (depth, v[1][1]))
+            if m not in init:
+                back[m] = v[1]
+                init[m] = ('u', sym.roottag(v[1]))
+                cur = st.mem.get(v[1])
+                if cur is not None:
+                    init[m] = marshal(cur, d + 1)
+            return ('ref', m, v[2])
+        if v[0] == 'enum':
+            return ('enum', v[1], {k: marshal(x, d + 1) for k, x in v[2].items()}, v[3])
+        if v[0] == 'agg':
+            return ('agg', {k: marshal(x, d + 1) for k, x in v[1].items()}, v[2])
+        return v
+
+    def unmarshal(v, d=0):
+        if v is None or d > 5:
+            return v
+        if v[0] == 'ref':
+            if v[1] in back:
+                return ('ref', back[v[1]], v[2])
+            if v[1][0] == 'L':
+                return ('u', 'ref-to-callee-local')
+            return v
+        if v[0] == 'enum':
+            return ('enum', v[1], {k: unmarshal(x, d + 1) for k, x in v[2].items()}, v[3])
+        if v[0] == 'agg':
+            return ('agg', {k: unmarshal(x, d + 1) for k, x in v[1].items()}, v[2])
+        if v[0] == 'discr':
+            return ('u', 'discr-of-callee')
+        return v
+
+    for r, v in st.mem.items():
+        if r[0] == 'M':
+            init[r] = marshal(v)
+    for i, v in enumerate(vals):
+        init[i + 1] = marshal(sym.resolve(st, v))
+    try:
+        sub = _ArgSym(sym.F, cb, oracle=sym.oracle, max_visits=sym.max_visits, max_paths=300, max_steps=60000)
+        sub.depth = depth + 1
+        outs = sub.run(init=init)
+    except SymLimit:
+        return None
+    rets = [o for o in outs if o['end'] == 'return']
+    if not rets:
+        return None
+    alts = []
+    for o in rets:
+        def refine(s, o=o):
+            for r, v in o['state'].mem.items():
+                if r in back:
+                    s.mem[back[r]] = unmarshal(v)
+                elif r[0] == 'M' and not r[1].startswith('frame%d.' % depth):
+                    s.mem[r] = unmarshal(v)
+            s.events.extend(e for e in o['events'] if isinstance(e[0], str) and e[0].startswith('x-'))
+        alts.append((None, unmarshal(o['ret']), {}, refine))
+    return ('fork', alts)
+
+
+_RE_PEEK = re.compile(r'Peekable::<.*>::(peek|peek_mut)$')
+_RE_NEXT_IF = re.compile(r'Peekable::<.*>::next_if$')
+_RE_NEXT_IF_EQ = re.compile(r'Peekable::<.*>::next_if_eq$')
+_RE_ITER_NEXT = re.compile(r'Iterator>?::next$')
+_RE_VIEW = re.compile(r'::(deref|deref_mut|as_str|as_mut_str|as_ref|borrow|into_iter)$')
+_RE_OWN = re.compile(r'::(to_owned|to_string|clone|into|from)$')
+_RE_STR = re.compile(r'^(core::str::<impl str>|alloc::string::String)::(\w+)(::<.*>)?$')
+_RE_OPT = re.compile(r'^core::option::Option::<T>::(is_some|is_none|unwrap|expect|unwrap_or_default)$')
+
+
+def _arg_oracle(modprefix):
+    """Models of the calls an option function makes while it decides whether the next argument is its business."""
+
+    def oracle(sym, st, t, args):
+        def text(v):
+            v = sym.deref(st, v)
+            if v is not None and v[0] == 'agg' and v[2] == 'ARG':
+                v = v[1]['value']
+            return v[1] if v is not None and v[0] == 'c' and isinstance(v[1], _Txt) else None
+
+        def is_args(v):
+            return sym.deref(st, v) == _ARGLIST
+
+        def pending():
+            """The next argument (a reference to it), or None at the end of the list."""
+            pos = st.mem[_M_POS][1]
+            return ('ref', _M_ARG0, ()) if pos == 0 else None
+
+        def consume(how):
+            def refine(s):
+                s.mem[_M_POS] = ('c', s.mem[_M_POS][1] + 1)
+                s.events.append(('x-consume', how, sym.body.fn, t.get('line')))
+            return refine
+
+        def call_pred(pred, item):
+            """Alternatives [(bool value or unknown, refine)] of predicate(item)."""
+            pred = sym.resolve(st, pred)
+            cb = None
+            if pred[0] == 'agg' and isinstance(pred[2], str) and pred[2].startswith('closure '):
+                cb = sym.F.bodies.get(pred[2][len('closure '):])
+                if cb is not None and cb.argc == 2:
+                    env = pred
+                    if cb.locals[1]['ty'].startswith('&'):
+                        root = ('M', 'closure-env@%s' % t.get('line'))
+                        st.mem[root] = pred
+                        env = ('ref', root, ())
+                    return _subcall(sym, st, cb, [env, item])
+            elif pred[0] == 'c' and isinstance(pred[1], str) and pred[1].startswith('fn '):
+                cb = sym.F.bodies.get(pred[1][3:])
+                if cb is not None and cb.argc == 1:
+                    return _subcall(sym, st, cb, [item])
+            return None
+
+        decl = t['f'].get('decl') or ''
+        name = (t['f'].get('def') or decl)
+        # ---- the argument list
+        if args and is_args(args[0]):
+            if Q.callee_is(t, [_RE_PEEK]):
+                p = pending()
+                return mk_enum('Some', p) if p else mk_enum('None')
+            if decl.endswith('Iterator::next') or _RE_ITER_NEXT.search(name):
+                if pending() is None:
+                    return mk_enum('None')
+                return ('fork', [(None, mk_enum('Some', st.mem[_M_ARG0]), {}, consume('next'))])
+            if Q.callee_is(t, [_RE_NEXT_IF]) and len(args) == 2:
+                p = pending()
+                if p is None:
+                    return mk_enum('None')
+                res = call_pred(args[1], p)
+                alts = []
+                if res is None:
+                    res = ('fork', [(None, ('u', 'call:next_if-predicate'), {}, None)])
+                for alt in res[1]:
+                    v = alt[1]
+                    inner = alt[3] if len(alt) > 3 else None
+
+                    def both(s, inner=inner, take=None):
+                        if inner:
+                            inner(s)
+                        if take:
+                            take(s)
+                    if v == ('c', True):
+                        alts.append((None, mk_enum('Some', st.mem[_M_ARG0]), {}, lambda s, inner=inner: both(s, inner, consume('next_if'))))
+                    elif v == ('c', False):
+                        alts.append((None, mk_enum('None'), {}, lambda s, inner=inner: both(s, inner)))
+                    else:
+                        def unknown(s, inner=inner, take=None):
+                            both(s, inner, take)
+                            s.events.append(('x-fork', 'call:next_if-predicate'))
+                        alts.append((None, mk_enum('Some', st.mem[_M_ARG0]), {}, lambda s, inner=inner: unknown(s, inner, consume('next_if'))))
+                        alts.append((None, mk_enum('None'), {}, lambda s, inner=inner: unknown(s, inner)))
+                return ('fork', alts)
+            if Q.callee_is(t, [_RE_NEXT_IF_EQ]) and len(args) == 2:
+                p = pending()
+                if p is None:
+                    return mk_enum('None')
+                a, b = text(p), text(args[1])
+                if a is not None and b is not None:
+                    if a == b:
+                        return ('fork', [(None, mk_enum('Some', st.mem[_M_ARG0]), {}, consume('next_if_eq'))])
+                    return mk_enum('None')
+                return None
+            if _RE_VIEW.search(name) or name.endswith('::peekable') or name.endswith('::by_ref') or name.endswith('::fuse'):
+                return args[0]
+            return None
+        # ---- characters of a text
+        if name == 'core::str::<impl str>::chars' and args:
+            tx = text(args[0])
+            return ('agg', {'text': ('c', tx), 'i': ('c', 0)}, 'Chars') if tx is not None else None
+        if args:
+            it = sym.deref(st, args[0])
+            if it is not None and it[0] == 'agg' and it[2] == 'Chars' and isinstance(it[1]['text'][1], _Txt):
+                tx, i = it[1]['text'][1], it[1]['i'][1]
+                if decl.endswith('Iterator::next') or _RE_ITER_NEXT.search(name):
+                    if args[0][0] != 'ref':
+                        return None
+                    if i < len(tx):
+                        sym.write(st, args[0][1], args[0][2], ('agg', {'text': ('c', tx), 'i': ('c', i + 1)}, 'Chars'), event=False)
+                        return mk_enum('Some', ('c', ord(tx[i])))
+                    return mk_enum('None')
+                if name.endswith('Chars::<\'a>::as_str') or name.endswith('::as_str'):
+                    return ('c', _Txt(tx[i:]))
+                if decl.endswith('Iterator::skip') and len(args) == 2 and args[1][0] == 'c' and isinstance(args[1][1], int):
+                    return ('agg', {'text': ('c', tx), 'i': ('c', min(len(tx), i + args[1][1]))}, 'Chars')
+                if _RE_VIEW.search(name) or _RE_OWN.search(name):
+                    return it
+                return None
+        # ---- texts
+        m = _RE_STR.match(name)
+        if m and args:
+            op = m.group(2)
+            tx = text(args[0])
+            if tx is None:
+                return None
+            pat = None
+            if len(args) > 1:
+                p = sym.deref(st, args[1])
+                if p is not None and p[0] == 'c' and isinstance(p[1], _Txt):
+                    pat = str(p[1])
+                elif p is not None and p[0] == 'c' and isinstance(p[1], int) and not isinstance(p[1], bool) and (t.get('at') or ['', ''])[1] == 'char':
+                    pat = chr(p[1])
+            if op == 'is_empty':
+                return ('c', len(tx) == 0)
+            if op == 'len':
+                return ('c', len(tx.encode()))
+            if op in ('as_str', 'as_ref', 'borrow', 'deref'):
+                return args[0]
+            if pat is not None:
+                if op == 'starts_with':
+                    return ('c', tx.startswith(pat))
+                if op == 'ends_with':
+                    return ('c', tx.endswith(pat))
+                if op == 'contains':
+                    return ('c', pat in tx)
+                if op == 'strip_prefix':
+                    return mk_enum('Some', ('c', _Txt(tx[len(pat):]))) if tx.startswith(pat) else mk_enum('None')
+                if op == 'strip_suffix':
+                    return mk_enum('Some', ('c', _Txt(tx[:len(tx) - len(pat)]))) if tx.endswith(pat) else mk_enum('None')
+            return None
+        if args and (_RE_VIEW.search(name) or name.endswith('AsRef::as_ref')) and text(args[0]) is not None:
+            return args[0]
+        if args and _RE_OWN.search(name) and text(args[0]) is not None and len(args) == 1:
+            return ('c', text(args[0]))
+        # ---- Option
+        m = _RE_OPT.match(name)
+        if m and args:
+            v = sym.deref(st, args[0])
+            if v is not None and v[0] == 'enum' and v[1] in ('Some', 'None'):
+                if m.group(1) == 'is_some':
+                    return ('c', v[1] == 'Some')
+                if m.group(1) == 'is_none':
+                    return ('c', v[1] == 'None')
+                if v[1] == 'Some' and m.group(1) in ('unwrap', 'expect'):
+                    return sym.field(v, '0')
+            return None
+        # ---- helpers of the same module (a test of the text moved into `fn is_short_option(&str) -> bool`, a nested fn, ...)
+        d = t['f'].get('def')
+        if d and d.startswith(modprefix) and d in sym.F.bodies and any(text(a) is not None or is_args(a) for a in args):
+            return _subcall(sym, st, sym.F.bodies[d], args)
+        return None
+
+    return oracle
+
+
+def _claim_verdicts(F, body, modprefix, s):
+    """What the option function does with the argument list [s]: set of 'claims' (the argument is consumed or an error is
+    returned) / 'declines' (returns Ok(false) / Ok(None) leaving the argument) / ('unknown', why), and the names of the
+    unmodelled calls whose result a declining path branched on."""
+    init = {_M_ARGS: _ARGLIST, _M_POS: ('c', 0), _M_ARG0: ('agg', {'value': ('c', _Txt(s))}, 'ARG')}
+    n = 0
+    for l in range(1, body.argc + 1):
+        if 'Peekable<' in body.locals[l]['ty']:
+            init[l] = ('ref', _M_ARGS, ()) if body.locals[l]['ty'].startswith('&') else _ARGLIST
+            n += 1
+    if n != 1:
+        return {('unknown', 'no single Peekable parameter')}, set(), []
+    sym = _ArgSym(F, body, _arg_oracle(modprefix), max_visits=6, max_paths=1500, max_steps=150000)
+    try:
+        outs = sym.run(init)
+    except SymLimit as e:
+        return {('unknown', str(e))}, set(), []
+    verdicts, blind, how = set(), set(), []
+    for o in outs:
+        cons = [e for e in o['events'] if e[0] == 'x-consume']
+        forks = {e[1] for e in o['events'] if e[0] == 'x-fork'}
+        if cons:
+            verdicts.add('claims')
+            how.append('%s() in %s' % (cons[0][1], cons[0][2].split('::')[-1]))
+            continue
+        if o['end'] != 'return':
+            if o['end'] == 'cutoff':
+                verdicts.add(('unknown', 'a loop that does not consume the argument was cut off'))
+            continue                                  # a panic: no outcome
+        r = o['ret']
+        if r is not None and r[0] == 'enum' and r[1] == 'Err':
+            verdicts.add('claims')
+            how.append('error')
+            continue
+        p = sym.field(r, '0') if r is not None and r[0] == 'enum' and r[1] == 'Ok' else None
+        if p == ('c', False) or (p is not None and p[0] == 'enum' and p[1] == 'None'):
+            verdicts.add('declines')
+            blind |= forks
+        elif p == ('c', True) or (p is not None and p[0] == 'enum' and p[1] == 'Some'):
+            verdicts.add('claims')
+            how.append('answers yes without consuming')
+        else:
+            verdicts.add(('unknown', 'result %s' % (r,)))
+    return verdicts, blind, how
+
+
+def _split_claimers(F, driver):
+    """The option functions of a driver: functions of its module it calls with the peekable argument list."""
+    mod = driver.rsplit('::', 1)[0] + '::'
+    out = []
+    for b in F.logical(driver):
+        for blk, t in b.calls():
+            d = t['f'].get('def')
+            if d and d.startswith(mod) and d in F.bodies and d not in out and not is_test(d) and \
+                    any('Peekable<' in F.bodies[d].locals[l]['ty'] for l in range(1, F.bodies[d].argc + 1)):
+                out.append(d)
+    return mod, out
+
+
+@RS.rule('C20.R13', 'K-TABLE', 'the bespoke parsers that ask a short-option function and then a long-option function (typeset/export/readonly, '
+         'set, the shell command line): on every argument text over {-, +, other}^<=3 the two functions together claim (consume or reject) '
+         'every argument that begins with a sign - except the documented lone `-`, `+` and `--` - and claim no other argument: no '
+         'malformed option (`-+x`, `+-p`) falls through to the operands')
+def r13(cx):
+    F = cx.F
+    for driver, (what, signs, example) in sorted(SPLIT_PARSERS.items()):
+        cx.require(driver in F.bodies, 'the parser %s (%s) was not found' % (driver, what))
+        mod, claimers = _split_claimers(F, driver)
+        cx.require(len(claimers) >= 2, '%s does not call a short-option and a long-option function of its module with the peekable '
+                   'argument list any more (found %s): review how %s splits option parsing' % (driver, claimers, what))
+        cx.fn(driver)
+        table = {}
+        for c in claimers:
+            cx.fn(c)
+            for s in SIGN_DOMAIN:
+                table[(c, s)] = _claim_verdicts(F, F.bodies[c], mod, s)
+                cx.cellcount(1)
+        unclaimed, stolen = {}, {}
+        for s in SIGN_DOMAIN:
+            row = {c: table[(c, s)] for c in claimers}
+            unknown = [(c, v) for c in claimers for v in row[c][0] if isinstance(v, tuple)]
+            cx.require(not unknown, '%s: the evaluation of %s on the argument %r is not decidable: %s'
+                       % (driver, unknown and unknown[0][0], s, unknown and unknown[0][1][1]))
+            sure = [c for c in claimers if row[c][0] == {'claims'}]
+            maybe = [c for c in claimers if 'claims' in row[c][0]]
+            if s and s[0] in signs and s not in SIGN_NOT_OPTION:
+                if not sure:
+                    blind = set().union(*[row[c][1] for c in claimers])
+                    cx.require(not blind, '%s: whether the argument %r is claimed depends on the result of %s, which the evaluation has no '
+                               'model for' % (driver, s, sorted(blind)))
+                    unclaimed.setdefault(s[:2], []).append(s)
+            elif not s or s[0] not in signs:
+                if maybe:
+                    stolen.setdefault(s[:1], []).append((s, maybe[0]))
+        names = [c.split('::')[-1] for c in claimers]
+        for s in ('-x', '+x', '--x', '++x', '-+', '+-', '-', '+', '--', '++', 'x', ''):
+            cx.site('%s: argument %r: %s' % (what, s, '; '.join('%s %s' % (n, '/'.join(sorted(table[(c, s)][0])) +
+                                                                          (' (%s)' % table[(c, s)][2][0] if table[(c, s)][2] else ''))
+                                                                 for n, c in zip(names, claimers))))
+        h = F.hir.get(driver)
+        loc = hloc(h) if h else None
+        for pre, ss in sorted(unclaimed.items()):
+            cx.violation(driver, 'sign-argument-unclaimed:%s' % pre, '%s: an argument beginning with `%s` (%s) is claimed neither by %s: the '
+                         'option loop ends there and the malformed option silently becomes an operand - %s instead of reporting an '
+                         'unknown option with a non-zero status and no effect'
+                         % (what, pre, ', '.join('`%s`' % x for x in ss), ' nor by '.join(names), example.replace('%s', pre)), loc=loc)
+        for pre, ss in sorted(stolen.items()):
+            cx.violation(driver, 'operand-claimed:%s' % (pre or 'empty'), '%s: the argument %r, which does not begin with %s, is taken '
+                         'by %s: an operand is parsed (or rejected) as an option'
+                         % (what, ss[0][0], ' or '.join('`%s`' % c for c in signs), ss[0][1].split('::')[-1]), loc=loc)
+
+
+# ---------------------------------------------------------------------------------------
+# added after seed wave 4 (C20-s8: `--rcfile -rc` was "missing argument" because the next argument was fetched with next_if)
+# The "option-argument is missing" errors of the option parsers of the workspace: (enum, variant) -> which parser.
+MISSING_OPTARG = {
+    ('yash_builtin::common::syntax::ParseError', 'MissingOptionArgument'): 'the generic built-in parser (-x ARG / --name ARG)',
+    ('yash_builtin::set::syntax::Error', 'MissingOptionArgument'): 'set -o NAME',
+    ('yash_cli::startup::args::Error', 'MissingOptionArgument'): 'the shell command line (-o NAME, --profile FILE, --rcfile FILE)',
+    ('yash_builtin::kill::syntax::Error', 'MissingSignal'): 'kill -s SIGNAL / -n NUMBER',
+    ('yash_builtin::getopts::model::Error', 'MissingArgument'): 'getopts (letter followed by `:` in the option string)',
+}
+# `Missing...` variants that are not about the argument of an option (reviewed): operands / whole invocations
+MISSING_OTHER = {
+    ('yash_builtin::unalias::syntax::Error', 'MissingArgument'): 'neither an option nor an operand was given at all',
+}
+# fetches of the next element that cannot look at it
+PLAIN_FETCH = [re.compile(r'Iterator>?::next$'), re.compile(r'Peekable::<.*>::(peek|peek_mut)$'),
+               re.compile(r'^core::slice::<impl \[T\]>::(get|first)(::<.*>)?$')]
+OPTION_EMPTY = {'is_none': True, 'is_some': False}
+
+
+def _optarg_fetch(body, du, place):
+    """The call that produced the Option stored in `place` (moves, borrows and `?` followed), or None."""
+    return Q.value_source(body, du, {'cp': {'l': place['l']}})
+
+
+def _is_arg_fetch(body, t):
+    """An unconditional fetch of the next argument (not of the next character of a text)."""
+    if not Q.callee_is(t, PLAIN_FETCH):
+        return False
+    ty = body.locals[t['dest']['l']]['ty'] if not t['dest'].get('p') else ''
+    return 'Option<char>' not in ty and 'Option<u8>' not in ty and 'Option<&u8>' not in ty
+
+
+def _missing_decided_by(F, body, blk, st):
+    """How the block constructing the `missing argument` error is reached -> (verdict, description).
+    verdict 'exhausted': behind `None` of an unconditional fetch of the next argument (match / if-let / let-else / is_none /
+    ok_or / `?`); 'predicate': behind `None` of a fetch that looks at the argument (next_if, find, filter, ...);
+    'undecided': no test of a fetched Option decides it."""
+    du = Q.DefUse(body)
+    found = []
+
+    def note(t):
+        if t is None:
+            return
+        found.append(('exhausted' if _is_arg_fetch(body, t) else 'predicate', pp.callee(t).split(' [')[0], t))
+
+    # `fetch.ok_or(Missing)` / `.ok_or_else(|| Missing)`: the error value is built before the test
+    for b_, t in body.calls():
+        if Q.callee_is(t, [re.compile(r'^core::option::Option::<T>::ok_or(::<.*>)?$')]) and len(t['a']) == 2:
+            org = du.origin(t['a'][1])
+            if org['k'] == 'agg' and org['rv'] is st['rv']:
+                note(Q.value_source(body, du, t['a'][0]))
+    if '{closure#' in body.fn.rsplit('::', 1)[-1]:
+        parent = F.bodies.get(body.fn.rsplit('::', 1)[0])
+        if parent is not None:
+            pdu = Q.DefUse(parent)
+            for b_, t in parent.calls():
+                if Q.callee_is(t, [re.compile(r'^core::option::Option::<T>::ok_or_else(::<.*>)?$')]) and len(t['a']) == 2:
+                    org = pdu.origin(t['a'][1])
+                    if org['k'] == 'agg' and org['rv'].get('ak') == 'closure' and org['rv'].get('def') == body.fn:
+                        src = Q.value_source(parent, pdu, t['a'][0])
+                        if src is not None:
+                            found.append(('exhausted' if _is_arg_fetch(parent, src) else 'predicate', pp.callee(src).split(' [')[0], src))
+    # tests that dominate the construction
+    for org, lab, e in Q.implied_conditions(F, body, du, blk):
+        org, lab = Q.peel_not(du, org, lab)
+        if org['k'] == 'discr' and lab == ('variant', 'None') and 'Option<' in str(org.get('ty')):
+            note(_optarg_fetch(body, du, org['pl']))
+        elif org['k'] == 'call' and org['t']['a']:
+            nm = pp.callee(org['t']).split(' [')[0]
+            m = re.match(r'^core::option::Option::<T>::(is_none|is_some)$', nm)
+            if m and lab == ('bool', OPTION_EMPTY[m.group(1)]):
+                a0 = org['t']['a'][0]
+                o = du.origin(a0)
+                pl = o['pl'] if o['k'] in ('ref', 'place') else Q.operand_place(a0)
+                if pl is not None:
+                    note(_optarg_fetch(body, du, pl))
+    for want in ('exhausted', 'predicate'):
+        for v, nm, t in found:
+            if v == want and (want == 'exhausted' or not any(v2 == 'exhausted' for v2, _, _ in found)):
+                return v, nm, t
+    return 'undecided', None, None
+
+
+@RS.rule('C20.R14', 'K-GUARD', 'an option-argument given as the next argument is that argument whatever it looks like: in every option parser '
+         '(generic built-in parser, set, kill, getopts, the shell command line) the `option-argument is missing` error is decided by the '
+         'end of the argument list alone - `None` of an unconditional next()/peek() - never by a fetch that inspects the text (next_if, '
+         'find, a guard on the fetched argument): `--rcfile -rc` is `--rcfile=-rc`, `-o -x` gives `-x` to -o')
+def r14(cx):
+    F = cx.F
+    # the variants this rule is about exist; a new `Missing...Argument` variant somewhere must be classified first
+    for (adt, var), what in sorted(MISSING_OPTARG.items()):
+        a = F.adts.get(adt)
+        cx.require(a is not None and any(v['name'] == var for v in a.get('variants') or []),
+                   'the error variant %s::%s (%s) does not exist any more: review how that parser reports a missing option-argument'
+                   % (adt, var, what))
+    for path, a in sorted(F.adts.items()):
+        if not path.startswith(('yash_builtin::', 'yash_cli::')):
+            continue
+        for v in a.get('variants') or []:
+            if re.search(r'Missing.*Arg', v['name']) and (path, v['name']) not in MISSING_OPTARG:
+                cx.require((path, v['name']) in MISSING_OTHER, 'new error variant %s::%s: say in rules/C20.py whether it reports a missing '
+                           'option-argument (MISSING_OPTARG) or something else (MISSING_OTHER)' % (path, v['name']))
+    per = {k: 0 for k in MISSING_OPTARG}
+    for fn in sorted(F.bodies):
+        if is_test(fn) or not fn.startswith(('yash_builtin::', 'yash_cli::')):
+            continue                                    # (trait impls such as the derived Clone start with `<`)
+        body0 = F.bodies[fn]
+        if not any((st['rv']['adt'], st['rv']['variant']) in MISSING_OPTARG for _, _, st in Q.find_aggregates(body0)):
+            continue
+        body = F.inlined(body0)                        # a fetch moved into a private helper is seen through
+        cx.fn(fn)
+        for blk, j, st in Q.find_aggregates(body):
+            key = (st['rv']['adt'], st['rv']['variant'])
+            if key not in MISSING_OPTARG:
+                continue
+            per[key] += 1
+            cx.cellcount(1)
+            verdict, nm, t = _missing_decided_by(F, body, blk, st)
+            cx.site('%s: %s::%s at %s: %s%s' % (fn, key[0].split('::')[-2], key[1], body.loc(st), verdict,
+                                               ' (%s at %s)' % (nm.split('::')[-1], body.loc(t)) if t is not None else ''))
+            if verdict == 'exhausted':
+                continue
+            how = ('the next argument is fetched with %s, which looks at its text and answers None for an argument that is there'
+                   % nm.split('::')[-1].split('<')[0]) if verdict == 'predicate' else \
+                  'it is not reached behind `None` of an unconditional next()/peek() on the argument list'
+            cx.violation(fn, 'missing-argument-not-by-exhaustion:%s' % key[1], '%s: the error %s is reported although the argument list '
+                         'may not be exhausted - %s. An option-argument given as the next argument must be taken whatever it looks like '
+                         '(`--rcfile -rc` = `--rcfile=-rc`, `-o -x`, `-s -9`): with a predicate the separate spelling is rejected as '
+                         '"missing argument" (or the argument is left to be parsed as an option) while the attached spelling is accepted'
+                         % (MISSING_OPTARG[key], key[1], how), loc=body.loc(st))
+    for key, n in sorted(per.items()):
+        if n == 0:
+            cx.violation(key[0], 'missing-argument-never-reported:%s' % key[1], '%s: nothing constructs %s::%s any more: an option that '
+                         'requires an argument and is the last argument is no longer rejected' % (MISSING_OPTARG[key], key[0], key[1]))
+    cx.floor(sum(per.values()), 7, 'constructions of a missing-option-argument error')
+
+
 # --- explanation addendum (generated catalogue in DESIGN.md reads RS.explanation)
 RS.explanation += " Added later: ulimit's long names agree with the resource selected by the short letter (R1b); the cut of `--name=value` is measured in the text the user typed (R3b). the user manual's -x (--long) pairs are pairs of the option tables (R6). getopts keeps scanning a group after any letter without argument (R9). kill reads only unsigned decimals as signal numbers (R10)."
 RS.explanation += " Every integer parse of operand text in the built-ins, job IDs, signal names, traps and option parsing sits behind a digit test, rejects the sign afterwards, or is a reviewed sign-tolerant site - `trap '' +2`, `kill -l +2`, `kill -s +9`, `%+1` are not numbers (R11, inventory of 19 sites, 12 reviewed entries). The name compared with `sh` at start-up is arg0 with the login hyphen removed (R12)."
